@@ -19,17 +19,23 @@ sys.path.insert(0, os.path.dirname(os.path.dirname(os.path.abspath(__file__))))
 
 ALLOWED_AXIOMS = []
 DETAIL = 0
-RULE = ("first lines of every kind (plain / negative / large / fractional / grouped numbers, percentages, money in all "
-        "161 currencies by code and by every configured alias or symbol, 1-7 part durations in every en and tr unit "
-        "spelling, times in all table zones and GMT offsets, dates of every month in the current and other years, "
-        "date-times, every unit x every parse name, based integers) x 7 separator pairs x digit / flag settings x "
-        "languages en and tr; the second evaluation re-enters the printed form of the first under the same "
-        "configuration; non-trivial = first evaluation printed a non-empty value and the second line is that text; "
-        "distinct = distinct histories")
+RULE = ("first lines of every kind (plain / negative / large / fractional / suffixed numbers, values below zero that round "
+        "to zero, percentages, money in all 161 currencies by code and by every key of currency_alias (word or symbol, "
+        "symbol in front or behind), 1-7 part durations in every en and tr unit spelling, zero and 360..364-day "
+        "remainders, times in table zones / GMT offsets / a configured zone, dates of every month (long and short word) in "
+        "the current and another year, today/tomorrow/yesterday, unix timestamps, date-times, every unit x every name, "
+        "based integers incl. hex digits that spell a currency) x 7 separator pairs (4 lexable, 3 not) x 10 digit / flag "
+        "settings x money flags x languages en and tr; phase 1 runs the first line on the implementation to obtain its "
+        "printed form, the emitted case re-enters that text as a second evaluation under the same configuration and "
+        "language; non-trivial = the first evaluation printed a non-empty value and the second line is exactly that "
+        "text; distinct = distinct histories")
 ASSUMPTIONS = ["the printed form re-entered is the one the implementation printed in phase 1 of the generator; a case whose "
                "first evaluation prints something else in the compared run (clock-dependent lines at a date change) is skipped",
                "equality of printed forms is string equality; the value behind the second print is not compared "
-               "(`10 cad` prints $10,00 which re-reads as 10 USD and prints $10,00 again: counted as holding)"]
+               "(`10 cad` prints $10,00, which re-reads as 10 USD and prints $10,00 again: counted as holding; see C15-K4)",
+               "`now` / `şimdi` are not generated (the printed second changes between the phases)",
+               "known classes are predicates of the first observation (type, currency, seconds, number type), the case's "
+               "language and separators and config.json data (reader_name / reads_as emulate parse.money on the printed symbol)"]
 
 _cfg = json.load(open(os.path.join(os.environ.get("SMARTCALC_REPO", "/repo"), "src", "json", "config.json"), encoding="utf-8"))
 CUR = {k.lower(): v for k, v in _cfg["currencies"].items()}
